@@ -1256,7 +1256,9 @@ pub fn cases_c05(seed: u64, tier: &str) -> Vec<String> {
             let (l2, _) = grammar_line(&mut r);
             let (l3, _) = grammar_line(&mut r);
             let nl = *r.pick(&["\n", "\r\n", "\r"]);
-            let file = format!("{}{}{}{}{}", l2, nl, line, nl, l3);
+            // blank lines between the records (they are no records; the iterator adapters must skip them too)
+            let gap = |r: &mut Rng| nl.repeat(1 + if r.chance(1, 3) { 1 + r.below(3) } else { 0 });
+            let file = format!("{}{}{}{}{}{}", l2, gap(&mut r), line, gap(&mut r), l3, if r.chance(1, 2) { nl } else { "" });
             out.push(format!("M {}", hex(file.as_bytes())));
             out.push(format!("I ={}", exp));
         }
